@@ -8,23 +8,23 @@ the element lists (`Spec.isSubset / isSuperset / isDisjoint`), `intersection_len
 intersection, and `union_len / difference_len / symmetric_difference_len` are the cardinalities of the
 mathematical results — the `wrapping_add / wrapping_sub` never wrap and the plain `-` of `difference_len`
 never overflows.  With C02 these are the `len()` of the materialised operations
-(`C08_len_materialised_partial`).
+(`C08_len_materialised`).
 
 The two early-outs of the relation code — `self.len() <= other.len()` in `Container::is_subset` and
 `(Bitmap, Array) => false` in `Store::is_subset` — are proved sound *from well-formedness*
 (`Container.isSubset_spec` in `Lemmas/ContainerOps.lean`): a bitset chunk holds more than 4096 values, an
 array chunk at most 4096.
 
-Every theorem is `_partial` for one reason only: the bitset-level kernel facts are the named hypothesis
-`K : BKernel` (`Lemmas/StoreOps.lean`), proved by the core proof library in parallel.
+All theorems are unconditional: the lemma library's kernel record `K : BKernel` (`Lemmas/StoreOps.lean`) is
+instantiated with `bKernel` (the core library's bitset theorems).
 -/
 namespace Roaring.C08
 open Roaring Roaring.Bitmap
 
-theorem C08_is_subset_partial (K : BKernel) (a b : Bitmap) (ha : a.WF) (hb : b.WF) :
+theorem C08_is_subset (a b : Bitmap) (ha : a.WF) (hb : b.WF) :
     isSubset a b = Spec.isSubset (elems a) (elems b) ∧
     (isSubset a b = true ↔ ∀ y, y ∈ elems a → y ∈ elems b) := by
-  have h := isSubset_spec K a b ha hb
+  have h := isSubset_spec bKernel a b ha hb
   refine ⟨?_, h⟩
   have hs : Spec.isSubset (elems a) (elems b) = true ↔ ∀ y, y ∈ elems a → y ∈ elems b := by
     unfold Spec.isSubset
@@ -32,95 +32,95 @@ theorem C08_is_subset_partial (K : BKernel) (a b : Bitmap) (ha : a.WF) (hb : b.W
     constructor
     · intro h1 y hy
       have := h1 y
-      rw [Spec.mem_sSub _ _ (sorted_elems K a ha) (sorted_elems K b hb)] at this
+      rw [Spec.mem_sSub _ _ (sorted_elemsK bKernel a ha) (sorted_elemsK bKernel b hb)] at this
       exact Classical.byContradiction fun hn => this ⟨hy, hn⟩
     · intro h1 y hy
-      rw [Spec.mem_sSub _ _ (sorted_elems K a ha) (sorted_elems K b hb)] at hy
+      rw [Spec.mem_sSub _ _ (sorted_elemsK bKernel a ha) (sorted_elemsK bKernel b hb)] at hy
       exact hy.2 (h1 y hy.1)
   exact Bool.eq_iff_iff.mpr (h.trans hs.symm)
 
-theorem C08_is_superset_partial (K : BKernel) (a b : Bitmap) (ha : a.WF) (hb : b.WF) :
+theorem C08_is_superset (a b : Bitmap) (ha : a.WF) (hb : b.WF) :
     isSuperset a b = Spec.isSuperset (elems a) (elems b) ∧
     (isSuperset a b = true ↔ ∀ y, y ∈ elems b → y ∈ elems a) :=
-  C08_is_subset_partial K b a hb ha
+  C08_is_subset b a hb ha
 
-theorem C08_is_disjoint_partial (K : BKernel) (a b : Bitmap) (ha : a.WF) (hb : b.WF) :
+theorem C08_is_disjoint (a b : Bitmap) (ha : a.WF) (hb : b.WF) :
     isDisjoint a b = Spec.isDisjoint (elems a) (elems b) ∧
     (isDisjoint a b = true ↔ ∀ y, y ∈ elems a → ¬ y ∈ elems b) := by
-  have h := isDisjoint_spec K a b ha hb
+  have h := isDisjoint_spec bKernel a b ha hb
   refine ⟨?_, h⟩
   have hs : Spec.isDisjoint (elems a) (elems b) = true ↔ ∀ y, y ∈ elems a → ¬ y ∈ elems b := by
     unfold Spec.isDisjoint
     rw [List.isEmpty_iff, List.eq_nil_iff_forall_not_mem]
     constructor
     · intro h1 y hy hn
-      exact h1 y ((Spec.mem_sAnd _ _ (sorted_elems K a ha) (sorted_elems K b hb) y).mpr ⟨hy, hn⟩)
+      exact h1 y ((Spec.mem_sAnd _ _ (sorted_elemsK bKernel a ha) (sorted_elemsK bKernel b hb) y).mpr ⟨hy, hn⟩)
     · intro h1 y hy
-      rw [Spec.mem_sAnd _ _ (sorted_elems K a ha) (sorted_elems K b hb)] at hy
+      rw [Spec.mem_sAnd _ _ (sorted_elemsK bKernel a ha) (sorted_elemsK bKernel b hb)] at hy
       exact h1 y hy.1 hy.2
   exact Bool.eq_iff_iff.mpr (h.trans hs.symm)
 
-theorem C08_intersection_len_partial (K : BKernel) (a b : Bitmap) (ha : a.WF) (hb : b.WF) :
+theorem C08_intersection_len (a b : Bitmap) (ha : a.WF) (hb : b.WF) :
     interLen a b = Spec.interLen (elems a) (elems b) := by
-  rw [interLen_eq_cnt K a b ha hb]
+  rw [interLen_eq_cnt bKernel a b ha hb]
   unfold cnt Spec.interLen
-  rw [Spec.sAnd_eq_filter _ _ (sorted_elems K a ha) (sorted_elems K b hb)]
+  rw [Spec.sAnd_eq_filter _ _ (sorted_elemsK bKernel a ha) (sorted_elemsK bKernel b hb)]
 
 /-- the facts the inclusion–exclusion arithmetic needs -/
-theorem C08_len_facts_partial (K : BKernel) (a b : Bitmap) (ha : a.WF) (hb : b.WF) :
+theorem C08_len_facts (a b : Bitmap) (ha : a.WF) (hb : b.WF) :
     len a = (elems a).length ∧ len b = (elems b).length ∧
     interLen a b = (Spec.sAnd (elems a) (elems b)).length ∧
     (Spec.sAnd (elems a) (elems b)).length ≤ (elems a).length ∧
     (Spec.sAnd (elems a) (elems b)).length ≤ (elems b).length ∧
     (elems a).length ≤ 4294967296 ∧ (elems b).length ≤ 4294967296 := by
-  have hsa := sorted_elems K a ha
-  have hsb := sorted_elems K b hb
-  refine ⟨len_eq_length K a (storesInv_of_wf a ha), len_eq_length K b (storesInv_of_wf b hb),
-    C08_intersection_len_partial K a b ha hb, ?_, ?_, length_elems_le K a ha, length_elems_le K b hb⟩
+  have hsa := sorted_elemsK bKernel a ha
+  have hsb := sorted_elemsK bKernel b hb
+  refine ⟨len_eq_lengthK bKernel a (storesInv_of_wf a ha), len_eq_lengthK bKernel b (storesInv_of_wf b hb),
+    C08_intersection_len a b ha hb, ?_, ?_, length_elems_le bKernel a ha, length_elems_le bKernel b hb⟩
   · rw [Spec.sAnd_eq_filter _ _ hsa hsb]; exact List.length_filter_le _ _
   · rw [Spec.sAnd_comm _ _ hsa hsb, Spec.sAnd_eq_filter _ _ hsb hsa]; exact List.length_filter_le _ _
 
 /-- `union_len` (ops.rs:56): `len + other.len - intersection_len`, and the `wrapping_*` never wrap -/
-theorem C08_union_len_partial (K : BKernel) (a b : Bitmap) (ha : a.WF) (hb : b.WF) :
+theorem C08_union_len (a b : Bitmap) (ha : a.WF) (hb : b.WF) :
     unionLen a b = Spec.unionLen (elems a) (elems b) := by
-  obtain ⟨h1, h2, h3, h4, h5, h6, h7⟩ := C08_len_facts_partial K a b ha hb
+  obtain ⟨h1, h2, h3, h4, h5, h6, h7⟩ := C08_len_facts a b ha hb
   have h := Spec.length_sOr_add_sAnd (elems a) (elems b)
   unfold unionLen wrappingSub wrappingAdd Spec.unionLen W
   rw [h1, h2, h3]
   omega
 
 /-- `difference_len` (ops.rs:77): the plain `-` never overflows (`some`), and the value is exact -/
-theorem C08_difference_len_partial (K : BKernel) (a b : Bitmap) (ha : a.WF) (hb : b.WF) :
+theorem C08_difference_len (a b : Bitmap) (ha : a.WF) (hb : b.WF) :
     diffLen a b = some (Spec.diffLen (elems a) (elems b)) := by
-  obtain ⟨h1, h2, h3, h4, h5, h6, h7⟩ := C08_len_facts_partial K a b ha hb
+  obtain ⟨h1, h2, h3, h4, h5, h6, h7⟩ := C08_len_facts a b ha hb
   have h := Spec.length_sSub_add_sAnd (elems a) (elems b)
   unfold diffLen Spec.diffLen
   rw [h1, h3, if_pos h4]
   congr 1; omega
 
 /-- `symmetric_difference_len` (ops.rs:98) -/
-theorem C08_symmetric_difference_len_partial (K : BKernel) (a b : Bitmap) (ha : a.WF) (hb : b.WF) :
+theorem C08_symmetric_difference_len (a b : Bitmap) (ha : a.WF) (hb : b.WF) :
     xorLen a b = Spec.xorLen (elems a) (elems b) := by
-  obtain ⟨h1, h2, h3, h4, h5, h6, h7⟩ := C08_len_facts_partial K a b ha hb
-  have h := Spec.length_sXor (elems a) (elems b) (sorted_elems K a ha) (sorted_elems K b hb)
+  obtain ⟨h1, h2, h3, h4, h5, h6, h7⟩ := C08_len_facts a b ha hb
+  have h := Spec.length_sXor (elems a) (elems b) (sorted_elemsK bKernel a ha) (sorted_elemsK bKernel b hb)
   unfold xorLen wrappingSub wrappingAdd Spec.xorLen W
   simp only
   rw [h1, h2, h3]
   omega
 
 /-- "hence the `len()` of the materialised operations" (with C02 for the `&a op &b` forms) -/
-theorem C08_len_materialised_partial (K : BKernel) (a b : Bitmap) (ha : a.WF) (hb : b.WF) :
+theorem C08_len_materialised (a b : Bitmap) (ha : a.WF) (hb : b.WF) :
     len (andRR a b) = interLen a b ∧ len (orRR a b) = unionLen a b ∧
     some (len (subRR a b)) = diffLen a b ∧ len (xorRR a b) = xorLen a b := by
-  have hand := C02.C02_and_rr_partial K a b ha hb
-  have hor := C02.C02_or_rr_partial K a b ha hb
-  have hsub := C02.C02_sub_rr_partial K a b ha hb
-  have hxor := C02.C02_xor_rr_partial K a b ha hb
+  have hand := C02.C02_and_rr a b ha hb
+  have hor := C02.C02_or_rr a b ha hb
+  have hsub := C02.C02_sub_rr a b ha hb
+  have hxor := C02.C02_xor_rr a b ha hb
   refine ⟨?_, ?_, ?_, ?_⟩
-  · rw [len_eq_length K _ (storesInv_of_wf _ hand.1), hand.2, C08_intersection_len_partial K a b ha hb]; rfl
-  · rw [len_eq_length K _ (storesInv_of_wf _ hor.1), hor.2, C08_union_len_partial K a b ha hb]; rfl
-  · rw [len_eq_length K _ (storesInv_of_wf _ hsub.1), hsub.2, C08_difference_len_partial K a b ha hb]; rfl
-  · rw [len_eq_length K _ (storesInv_of_wf _ hxor.1), hxor.2, C08_symmetric_difference_len_partial K a b ha hb]; rfl
+  · rw [len_eq_lengthK bKernel _ (storesInv_of_wf _ hand.1), hand.2, C08_intersection_len a b ha hb]; rfl
+  · rw [len_eq_lengthK bKernel _ (storesInv_of_wf _ hor.1), hor.2, C08_union_len a b ha hb]; rfl
+  · rw [len_eq_lengthK bKernel _ (storesInv_of_wf _ hsub.1), hsub.2, C08_difference_len a b ha hb]; rfl
+  · rw [len_eq_lengthK bKernel _ (storesInv_of_wf _ hxor.1), hxor.2, C08_symmetric_difference_len a b ha hb]; rfl
 
 /-- `is_superset` is `is_subset` with the operands exchanged (cmp.rs:95). -/
 theorem C08_superset_def (a b : Bitmap) : isSuperset a b = isSubset b a := rfl
